@@ -84,6 +84,7 @@ ReDownload:
 
 	lockTasks()
 	task := p.availbTask(tasks, height)
+	verifPicked(height, task, tasks, len(tasksMu) > 0)
 	unlockTasks()
 	if task == nil {
 		time.Sleep(time.Millisecond * 400)
